@@ -1,5 +1,5 @@
 import StorageModel.Driver.Common
-import StorageModel.C16.Model
+import StorageModel.C16.Load
 /- model driver for C16: `run spec` reads case lines on stdin and prints one output line per case
    (spec = false: the engine model's output; spec = true: the spec's verdict).
    Case and output formats: see /verif/harness/c16.go. -/
@@ -7,8 +7,27 @@ namespace StorageModel.Driver.C16
 open StorageModel StorageModel.Driver StorageModel.C16
 
 abbrev Key := Bytes
-abbrev Nm := Bytes
+
+/-- the stored form of a string field: a string, the key absent (`bucket.Delete`), or a nil value
+    (what `SetStringP(nil)` of a version with a nullable field writes).  Only the `name` slot ever
+    holds anything but `str` (raw writes `z:…`). -/
+inductive NV
+  | str (b : Bytes)
+  | absent
+  | nil
+  deriving DecidableEq, Repr
+
+abbrev Nm := NV
 abbrev Tm := String
+
+/-- the universe's strategy: `FillEntity` reads the name with `GetStringOrError` — a missing key and a
+    nil value make it report "non-nullable field name is null" -/
+def strat : Strat Nm := ⟨fun | .str _ => false | _ => true⟩
+
+def NV.wire : NV → String
+  | .str b => Bytes.toWire b
+  | .absent => "!del"
+  | .nil => "!nil"
 
 /-- bbolt key order: bytewise lexicographic -/
 def bytesLe : List UInt8 → List UInt8 → Bool
@@ -24,12 +43,14 @@ def parseKey (s : String) : Key := (Bytes.ofHex s).getD []
 def checkerSets (c : String) (field : String) : Bool :=
   c = "n" || (c != "-" && (c.splitOn ",").contains field)
 
-def parseTag (s : String) : Option Nm := if s = "~" then none else some (parseKey s)
+def parseNm (s : String) : Nm := .str (parseKey s)
+
+def parseTag (s : String) : Option Nm := if s = "~" then none else some (parseNm s)
 
 def parseOwner (s : String) : Option Key := if s = "-" then none else some (parseKey s)
 
 def mkVals (flag name mig cAt uAt tag owner : String) : Vals Key Nm Tm :=
-  { flag := flag = "t", migrate := mig = "t", cAt := cAt, uAt := uAt, tags := parseTag tag, name := parseKey name,
+  { flag := flag = "t", migrate := mig = "t", cAt := cAt, uAt := uAt, tags := parseTag tag, name := parseNm name,
     owner := parseOwner owner }
 
 /-- o: the transaction's context; s: its GetSystemContext(); n: nested Db.Update handed the system
@@ -39,38 +60,42 @@ def ctxSys (topSys : Bool) (ctx : String) : Bool := topSys || ctx = "s" || ctx =
 /-- `topSys`: the context handed to Db.Update is a system context, so every operation's context is.
     `stored id` = the in-memory entity `FindById` would return right now (for the write-back op `b`:
     `S.Update` of the entity just loaded, unchanged) -/
-def parseOp (topSys : Bool) (stored : Key → Option (Vals Key Nm Tm)) (s : String) : Option (Op Key Nm Tm) :=
+def parseOp (topSys : Bool) (stored : Key → Option (Vals Key Nm Tm)) (s : String) : Option (LOp Key Nm Tm) :=
   let sys := ctxSys topSys
   match s.splitOn ":" with
   | ["b", ctx, id, ch] =>
     let v := (stored (parseKey id)).getD (mkVals "f" "-" "f" "z" "z" "~" "-")
-    some (.update (sys ctx) (parseKey id) v (checkerSets ch "name") (checkerSets ch "tags") (checkerSets ch "owner"))
+    some (.base <| .update (sys ctx) (parseKey id) v (checkerSets ch "name") (checkerSets ch "tags") (checkerSets ch "owner"))
   | ["c", ctx, id, flag, name, mig, cAt, uAt, tag] =>
-    some (.create (sys ctx) (parseKey id) (parseKey id).isEmpty (mkVals flag name mig cAt uAt tag "-"))
+    some (.base <| .create (sys ctx) (parseKey id) (parseKey id).isEmpty (mkVals flag name mig cAt uAt tag "-"))
   | ["c", ctx, id, flag, name, mig, cAt, uAt, tag, owner] =>
-    some (.create (sys ctx) (parseKey id) (parseKey id).isEmpty (mkVals flag name mig cAt uAt tag owner))
+    some (.base <| .create (sys ctx) (parseKey id) (parseKey id).isEmpty (mkVals flag name mig cAt uAt tag owner))
   | ["u", ctx, id, flag, name, ch, mig, cAt, uAt, tag] =>
-    some (.update (sys ctx) (parseKey id) (mkVals flag name mig cAt uAt tag "-") (checkerSets ch "name")
+    some (.base <| .update (sys ctx) (parseKey id) (mkVals flag name mig cAt uAt tag "-") (checkerSets ch "name")
       (checkerSets ch "tags") (checkerSets ch "owner"))
   | ["u", ctx, id, flag, name, ch, mig, cAt, uAt, tag, owner] =>
-    some (.update (sys ctx) (parseKey id) (mkVals flag name mig cAt uAt tag owner) (checkerSets ch "name")
+    some (.base <| .update (sys ctx) (parseKey id) (mkVals flag name mig cAt uAt tag owner) (checkerSets ch "name")
       (checkerSets ch "tags") (checkerSets ch "owner"))
-  | ["d", ctx, id] => some (.delete (sys ctx) (parseKey id))
+  | ["d", ctx, id] => some (.base <| .delete (sys ctx) (parseKey id))
   | ["C", ctx, id, flag, name, mig, cAt, uAt, tag, owner, lvl] =>
-    some (.ccreate (sys ctx) (parseKey id) (parseKey id).isEmpty (mkVals flag name mig cAt uAt tag owner) (parseKey lvl))
+    some (.base <| .ccreate (sys ctx) (parseKey id) (parseKey id).isEmpty (mkVals flag name mig cAt uAt tag owner) (parseNm lvl))
   | ["U", ctx, id, flag, name, ch, mig, cAt, uAt, tag, owner, lvl] =>
-    some (.cupdate (sys ctx) (parseKey id) (mkVals flag name mig cAt uAt tag owner) (checkerSets ch "name")
-      (checkerSets ch "tags") (checkerSets ch "owner") (checkerSets ch "level") (parseKey lvl))
-  | ["D", ctx, id] => some (.cdelete (sys ctx) (parseKey id))
-  | ["oc", _, id] => some (.ocreate (parseKey id) (parseKey id).isEmpty)
-  | ["od", ctx, id] => some (.odelete (sys ctx) (parseKey id))
-  | ["w", ctx, "T"] => some (.deleteWhere (sys ctx) .all)
-  | ["w", ctx, "n", n] => some (.deleteWhere (sys ctx) (.name (parseKey n)))
-  | ["w", ctx, "o", o] => some (.deleteWhere (sys ctx) (.owner (parseKey o)))
-  | ["w", ctx, "s", b] => some (.deleteWhere (sys ctx) (.flag (b = "t")))
-  | ["l", sid, oid] => some (.link (parseKey sid) (parseKey oid))
-  | ["x", sid, oid] => some (.unlink (parseKey sid) (parseKey oid))
-  | ["r", id] => some (.read (parseKey id))
+    some (.base <| .cupdate (sys ctx) (parseKey id) (mkVals flag name mig cAt uAt tag owner) (checkerSets ch "name")
+      (checkerSets ch "tags") (checkerSets ch "owner") (checkerSets ch "level") (parseNm lvl))
+  | ["D", ctx, id] => some (.base <| .cdelete (sys ctx) (parseKey id))
+  | ["oc", _, id] => some (.base <| .ocreate (parseKey id) (parseKey id).isEmpty)
+  | ["od", ctx, id] => some (.base <| .odelete (sys ctx) (parseKey id))
+  | ["w", ctx, "T"] => some (.base <| .deleteWhere (sys ctx) .all)
+  | ["w", ctx, "n", n] => some (.base <| .deleteWhere (sys ctx) (.name (parseNm n)))
+  | ["w", ctx, "o", o] => some (.base <| .deleteWhere (sys ctx) (.owner (parseKey o)))
+  | ["w", ctx, "s", b] => some (.base <| .deleteWhere (sys ctx) (.flag (b = "t")))
+  | ["l", sid, oid] => some (.base <| .link (parseKey sid) (parseKey oid))
+  | ["x", sid, oid] => some (.base <| .unlink (parseKey sid) (parseKey oid))
+  | ["r", id] => some (.base <| .read (parseKey id))
+  -- raw writes of the `name` key in the entity bucket (bare transaction)
+  | ["z", id, "del"] => some (.rawName (parseKey id) .absent)
+  | ["z", id, "nil"] => some (.rawName (parseKey id) .nil)
+  | ["z", id, "set", n] => some (.rawName (parseKey id) (parseNm n))
   | _ => none
 
 def tf (b : Bool) : String := if b then "t" else "f"
@@ -85,13 +110,19 @@ def showErr : Err → String
   | .noOwner => "!noOwner"
   | .viaSysDelete => "!via:sysDelete"
 
+def showLErr : LErr → String
+  | .base e => showErr e
+  | .load => "!loadErr"
+  | .loadFinal => "!loadErr"
+  | .viaLoad => "!via:loadErr"
+
 def showStamp : Stamp Tm → String
   | .now => "now"
   | .given t => t
 
 def showTag : Option Nm → String
   | none => "~"
-  | some t => Bytes.toWire t
+  | some t => t.wire
 
 def showOwner : Option Key → String
   | none => "-"
@@ -109,7 +140,7 @@ def viewModel (s : St Key Nm Tm) (pool opool : List Key) : String :=
   String.join (pool.map fun id =>
     Bytes.toWire id ++ "=" ++ (match s.ents.get id with
       | none => "f/////////-"
-      | some e => "t/" ++ tf e.isSystem ++ "/" ++ Bytes.toWire e.name ++ "/" ++ showTag e.tags ++ "/" ++
+      | some e => "t/" ++ tf e.isSystem ++ "/" ++ e.name.wire ++ "/" ++ showTag e.tags ++ "/" ++
           showStamp e.created ++ "/" ++ showStamp e.updated ++ "/" ++ showOwner e.owner ++ "/" ++ showTag e.level ++ "/" ++
           showPeers e.peers ++ "/" ++
           (match e.flag with | none => "-" | some true => "t" | some false => "f")) ++ ";")
@@ -118,13 +149,13 @@ def viewModel (s : St Key Nm Tm) (pool opool : List Key) : String :=
 def readModel (s : St Key Nm Tm) (id : Key) : String :=
   match s.ents.get id with
   | none => "none"
-  | some e => tf e.isSystem ++ "/" ++ Bytes.toWire e.name
+  | some e => tf e.isSystem ++ "/" ++ e.name.wire
 
-def opResult (s : St Key Nm Tm) (op : Op Key Nm Tm) (o : Out Key Nm Tm) : String :=
+def opResult (s : St Key Nm Tm) (op : LOp Key Nm Tm) (o : LOut Key Nm Tm) : String :=
   match o.err with
-  | some e => showErr e
+  | some e => showLErr e
   | none => match op with
-    | .read id => readModel s id
+    | .base (.read id) => readModel s id
     | _ => "ok"
 
 /-- the loaded entity: what `LoadBaseValues` + the strategy's `FillEntity` put into the struct -/
@@ -141,12 +172,12 @@ def runTxModel (s : St Key Nm Tm) (keepGoing : Bool) (topSys : Bool) (ops : List
       match parseOp topSys (storedVals cur) ops0 with
       | none => go cur rest acc
       | some op =>
-      let o := StorageModel.C16.step cur op
+      let o := lstep strat cur op
       match o.err with
       | none => go o.st rest (opResult cur op o :: acc)
       | some e =>
-        if keepGoing && e.ignorable then go o.st rest (showErr e :: acc)
-        else (s, (showErr e :: acc).reverse, viewModel o.st pool opool)
+        if keepGoing && e.ignorable then go o.st rest (showLErr e :: acc)
+        else (s, (showLErr e :: acc).reverse, viewModel o.st pool opool)
   let r := go s ops []
   (r.1, ";".intercalate r.2.1 ++ "|" ++ r.2.2 ++ "|" ++ viewModel r.1 pool opool)
 
@@ -193,7 +224,7 @@ def viewSpec (s : SSt Key Nm Tm) (pool opool : List Key) : String :=
   String.join (pool.map fun id =>
     Bytes.toWire id ++ "=" ++ (match s.ents.get id with
       | none => "f////////_/_"
-      | some e => "t/" ++ tf e.isSys ++ "/" ++ Bytes.toWire e.name ++ "/" ++ showTag e.tags ++ "/" ++
+      | some e => "t/" ++ tf e.isSys ++ "/" ++ e.name.wire ++ "/" ++ showTag e.tags ++ "/" ++
           showStamp e.created ++ "/" ++ showStamp e.updated ++ "/" ++ showOwner e.owner ++ "/" ++ showTag e.level ++
           "/_/_") ++ ";")
   ++ viewOwners s.owners opool
@@ -211,10 +242,10 @@ def runTxSpec (s : SSt Key Nm Tm) (keepGoing : Bool) (topSys : Bool) (ops : List
       match parseOp topSys (sstoredVals cur) ops0 with
       | none => go cur rest acc
       | some op =>
-      match sstep cur op with
+      match lsstep strat cur op with
       | .ok s' =>
         let res := match op with
-          | .read id => (match cur.ents.get id with | none => "none" | some e => tf e.isSys ++ "/" ++ Bytes.toWire e.name)
+          | .base (.read id) => (match cur.ents.get id with | none => "none" | some e => tf e.isSys ++ "/" ++ e.name.wire)
           | _ => "ok"
         go s' rest (res :: acc)
       | .fail ignorable =>
